@@ -10,7 +10,7 @@ class C12(OutstationProp):
     # gen_session_tables: dispatch, IIN2 of object errors, to_request (theorems C12_tables_*, Outstation/TablesAgree.v);
     # the other three regenerate the tables App/Grammar.v and App/AppHeader.v are built on
     translators = ["gen_variations", "gen_qualifiers", "gen_functions", "gen_session_tables"]
-    proof_targets = ["Outstation/SessionC12Proofs.vo", "Outstation/TablesAgree.vo"]
+    proof_targets = ["Outstation/SessionC12Proofs.vo", "Outstation/TablesAgree.vo", "Outstation/FullCorollaries.vo"]
     property_file = "Properties/C12.v"
     rule = ("every function code 0..255 and header-flag combination with supported, unsupported, unknown and truncated "
             "object headers (one or several, only some acceptable), request sizes up to the receive buffer against "
